@@ -200,9 +200,9 @@ class Gen:
                         wrong = rng.choice([(c + 1) % M31, (c - 1) % M31, rng.randrange(M31), M31 - 1,
                                             frames[j - 1]["corr"] if j and frames[j - 1]["corr"] is not None else (c + 2) % M31,
                                             -c if c else -1, c - 2 ** 32 if c else -2])
-                    if wrong != c:
+                    wb = struct.pack(">i", wrong if -M31 <= wrong < M31 else wrong % M31)
+                    if struct.unpack(">i", wb)[0] != c:
                         payload = fr["bytes"][8:]
-                        wb = struct.pack(">i", wrong if -M31 <= wrong < M31 else wrong % M31)
                         blobs[j] = be32(len(payload) + 4) + wb + payload
                         owners[j] = (fr["for"], struct.unpack(">i", wb)[0])
                         meta["fault_frame"] = j
@@ -568,17 +568,20 @@ def monitor(sc, res, oracle, cat):
             bad.append(("exact_delivery", f"waiter {wid} ({cat[kind]['name']} v{cat[kind]['version']}) got a {o[1]}",
                         "wrong-class"))
         found = None
-        for p in range(pos, len(frames)):
-            q = oracle.get((kind, frames[p].hex()))
-            if q and q[2] and q[3] == o[2]:
-                found = (p, q[5])
+        mine = wcorr[wid] if wid < len(wcorr) else None
+        for strict in (True, False):      # prefer a frame that carries the waiter's own id
+            for p in range(pos, len(frames)):
+                q = oracle.get((kind, frames[p].hex()))
+                if q and q[2] and q[3] == o[2] and (q[5] == mine or not strict):
+                    found = (p, q[5])
+                    break
+            if found:
                 break
         if found is None:
             bad.append(("exact_delivery", f"waiter {wid} received a response that is no frame of the stream after "
                                           f"the previous delivery", "not-in-order"))
             continue
         pos = found[0] + 1
-        mine = wcorr[wid] if wid < len(wcorr) else None
         if found[1] != mine:
             if cat[kind]["quirk"] and found[1] == 0:
                 bad.append(("exact_delivery", QUIRK_SIG + f" (sent {mine})", QUIRK_SIG))
@@ -686,8 +689,13 @@ def run_model(ck, scenarios, oracle, cat, label="cases", nshards=32):
 
 
 def evaluate(ck, scenarios, cat, label="cases"):
+    import time
+    t0 = time.time()
     res, oracle = run_real(ck, scenarios)
+    t1 = time.time()
     model, err = run_model(ck, scenarios, oracle, cat, label)
+    ck.extra["timing_s"] = {"real": round(t1 - t0, 1), "model": round(time.time() - t1, 1)}
+    ck.log(f"real run {t1 - t0:.1f}s, model run {time.time() - t1:.1f}s")
     mism = 0
     first = err
     nviol = 0
